@@ -18,13 +18,13 @@ TECHNIQUE = "online memo-store monitor + channel differential against an indepen
 RULE = ("seeded random acyclic stock/flow specs (1-3 stocks, flows/biflows/converters/constants, equations depth<=3 over "
         "+ - * / min max abs sqrt If, time/dt/starttime/stoptime, lookup (inline and named points), delay (with/without "
         "initial value), smooth, trend, step, pulse) x 12 run specs incl. decimal dt and non-zero start; every fourth model is defined under other run specs "
-        "(earlier start, coarser dt) and receives its run specs afterwards through Model.run_specs(). "
+        "(earlier start, coarser dt) and receives its run specs afterwards through Model.run_specs(); every model is also run as a scenario that overrides one constant (a stock's initial-value constant where there is one) and re-read after that constant was re-defined on the evaluated model, and after a point of a named lookup was moved in place (followed by reset_cache). "
         "distinct_nontrivial = distinct (built-in, position) pairs and element-kind/dt classes observed in well-conditioned "
         "specs whose trajectory is not constant.")
 ASSUMPTIONS = ["step(h,ts)=h for t>ts and pulse=v/dt at first(+k*interval): the convention of the library's own test_sddsl_functions",
                "ill-conditioned specs (near a discontinuity, |v|>1e12, tiny divisors) are dropped by a reference-side rule and counted",
                "random-number functions are excluded here (C08 covers them)"]
-REQUIRED = {"models_with_run_specs_set_after_definition": 20, "memo_events_checked": 1000, "df_cells": 1000, "call_cells": 1000, "plot_cells": 500}
+REQUIRED = {"points_edit_cells": 500, "scenario_override_cells": 1000, "redefinition_cells": 1000, "models_with_run_specs_set_after_definition": 20, "memo_events_checked": 1000, "df_cells": 1000, "call_cells": 1000, "plot_cells": 500}
 BUDGET_S = {"quick": 100, "thorough": 1200}
 
 
@@ -152,6 +152,96 @@ def compare_dsl(sp, names, times, table, counters, tol=1e-9, late_runspecs=False
             if not X.close(v, table[nme][k], rel=tol, ab=1e-9):
                 return dict(mech="value:" + kind_of(sp, nme), channel="Element.__call__", element=nme, t=t, got=float(v), expected=table[nme][k],
                             function_string=E[nme].function_string)
+    # --- channel 2b: a scenario that overrides one constant (preferably one that is a stock's initial value), and the same
+    #     constant re-defined on the model after everything has been evaluated once ---------------------------------------------
+    consts = [e for e in sp["elements"] if e["kind"] == "constant"]
+    inits = [e["init"]["ref"] for e in sp["elements"] if e["kind"] == "stock" and isinstance(e.get("init"), dict)]
+    if consts:
+        import copy
+        cname = inits[0] if inits else consts[0]["name"]
+        sp2 = copy.deepcopy(sp)
+        for e in sp2["elements"]:
+            if e["name"] == cname:
+                e["value"] = newv = float(e["value"]) * 1.5 + 0.25
+        try:
+            ref2 = refsd.Ref(sp2)
+            table2 = ref2.table()
+            ok2 = ref2.min_dist >= 1e-6
+        except (X.IllConditioned, RecursionError):
+            ok2 = False
+        if ok2:
+            b2 = bptk()
+            try:
+                m2, E2 = S.build_dsl(sp, name="m2", late_runspecs=late_runspecs)
+                b2.register_model(m2, scenario_manager="smC01b", scenario={"base": {}, "alt": {"constants": {cname: newv}}})
+                df2 = b2.run_scenarios(scenarios=["alt"], scenario_managers=["smC01b"], equations=list(names), return_format="df")
+                for nme in names:
+                    col = "smC01b_alt_" + nme if "smC01b_alt_" + nme in df2.columns else nme
+                    for k, t in enumerate(times):
+                        i = lookup_time(df2.index, t)
+                        counters["scenario_override_cells"] = counters.get("scenario_override_cells", 0) + 1
+                        if i is None or not X.close(df2[col][i], table2[nme][k], rel=tol, ab=1e-9):
+                            return dict(mech="value:" + kind_of(sp, nme), channel="scenario that overrides constant %s" % cname, element=nme, t=t,
+                                        got=None if i is None else float(df2[col][i]), expected=table2[nme][k], stock_initial_value_constant=bool(inits))
+            except Exception as e:
+                return dict(mech="run-exception", channel="scenario override", error=repr(e)[:300])
+            finally:
+                b2.destroy()
+            # the same change made on the model object itself, after it has been evaluated (channel 2 above filled its memo)
+            try:
+                E[cname].equation = newv
+                for nme in names:
+                    for k, t in enumerate(times):
+                        v = E[nme](t)
+                        counters["redefinition_cells"] = counters.get("redefinition_cells", 0) + 1
+                        if not X.close(v, table2[nme][k], rel=tol, ab=1e-9):
+                            return dict(mech="value:" + kind_of(sp, nme), channel="constant %s re-defined after evaluation" % cname, element=nme, t=t, got=float(v),
+                                        expected=table2[nme][k], stock_initial_value_constant=bool(inits))
+            except Exception as e:
+                return dict(mech="call-exception", channel="constant re-defined", error=repr(e)[:200])
+            finally:
+                E[cname].equation = float([e["value"] for e in sp["elements"] if e["name"] == cname][0])
+    # --- channel 2c: a point of a named lookup moved IN PLACE on the evaluated model, cache reset, everything read again ------------
+    used = set()
+
+    def walk(a):
+        if isinstance(a, list):
+            if a and a[0] == "lookup" and isinstance(a[2], str):
+                used.add(a[2])
+            for z in a:
+                walk(z)
+    for e in sp["elements"]:
+        walk(e.get("eq"))
+    if used:
+        import copy
+        import json
+        pn = sorted(used)[0]
+        sp3 = json.loads(json.dumps(sp))      # (a JSON round trip also un-aliases inline lookups that share their list with sp["points"])
+        j = len(sp3["points"][pn]) // 2
+        sp3["points"][pn][j][1] = float(sp3["points"][pn][j][1]) + 1.5
+        try:
+            ref3 = refsd.Ref(sp3)
+            table3 = ref3.table()
+            ok3 = ref3.min_dist >= 1e-6
+        except (X.IllConditioned, RecursionError):
+            ok3 = False
+        if ok3:
+            old_y = m.points[pn][j][1]
+            try:
+                m.points[pn][j][1] = float(old_y) + 1.5          # the list object stays the same
+                m.reset_cache()
+                for nme in names:
+                    for k, t in enumerate(times):
+                        v = E[nme](t)
+                        counters["points_edit_cells"] = counters.get("points_edit_cells", 0) + 1
+                        if not X.close(v, table3[nme][k], rel=tol, ab=1e-9):
+                            return dict(mech="value:" + kind_of(sp, nme), channel="point of lookup %s moved in place, cache reset" % pn, element=nme, t=t, got=float(v),
+                                        expected=table3[nme][k])
+            except Exception as e:
+                return dict(mech="call-exception", channel="points edited in place", error=repr(e)[:200])
+            finally:
+                m.points[pn][j][1] = old_y
+                m.reset_cache()
     # --- channel 3: Element.plot(return_df=True) ---------------------------
     for nme in names[-3:]:
         try:
